@@ -57,8 +57,11 @@ def main():
                             CFDPMON_WORK_DIR=str(d / "work"))
                 rc = subprocess.run(["/venv/bin/python", str(VERIF / "check.py"), p, "--tier", tier], env=envc, text=True, capture_output=True)
                 first = next((l for l in rc.stdout.splitlines() if l.startswith("violation:")), "")
-                row["checks"][p] = {"rc": rc.returncode, "tier": tier, "first": first[:400]}
-                if rc.returncode not in (0, 1):
+                code = rc.returncode
+                if code == 1 and f"VIOLATION property={p}" not in rc.stdout:
+                    code = 3  # the check itself crashed (e.g. not built yet): never counted as caught
+                row["checks"][p] = {"rc": code, "tier": tier, "first": first[:400]}
+                if code not in (0, 1):
                     row["checks"][p]["out"] = (rc.stdout + rc.stderr)[-500:]
             print(json.dumps(row, indent=1))
             print(f"== {name} patch{n}: confirmed={confirmed} " + " ".join(f"{p}:{'CAUGHT' if c['rc'] == 1 else ('missed' if c['rc'] == 0 else 'rc=%d' % c['rc'])}" for p, c in row["checks"].items()))
